@@ -70,7 +70,7 @@ def linear_extensions(nodes, edges, rng, limit):
     return res
 
 
-def collect(tier, sd, rng, greedy=False):
+def collect(tier, sd, rng, greedy=False, extra=()):
     n = 360 if tier == "quick" else 5000
     blocks = gen.blocks(sd * 211 + 6, n, profiles=("mem", "mixed", "mem", "arith"))
     # memory traffic at constant, unaligned and symbolic+constant offsets, hashes over stored ranges
@@ -84,7 +84,7 @@ def collect(tier, sd, rng, greedy=False):
         blocks.append(" ".join(out))
     osets = [["-greedy"], ["-greedy", "-storage"], ["-greedy", "-partition"], ["-greedy", "-no-simplification"]]
     corpus = gen.mem_pair_corpus()
-    tasks = [{"kind": "spec", "text": b, "opts": ["-greedy"], "greedy": greedy} for b in corpus] + [{"kind": "spec", "text": b, "opts": osets[i % len(osets)] if tier == "quick" else o, "greedy": greedy}
+    tasks = [{"kind": "spec", "text": b, "opts": ["-greedy"], "greedy": greedy} for b in list(corpus) + list(extra)] + [{"kind": "spec", "text": b, "opts": osets[i % len(osets)] if tier == "quick" else o, "greedy": greedy}
              for i, b in enumerate(blocks) for o in ([None] if tier == "quick" else osets)]
     groups = {}
     for t in tasks:
